@@ -26,6 +26,9 @@ CHECKS = {
   "C08": ("E1 exchange+server", "seeded client scheduling (uniform and PCT-style) with digests and solo re-runs",
           "Ids are compared with every id ever handed out; after every request the digest of every other backtest must be unchanged; unknown targets must be rejected without effect; each backtest's response stream is compared with a solo re-run on a fresh server.",
           A1, "5/E1/C08"),
+  "C18": ("E1 exchange+server", "seeded simulation with the property's IOC/GTC/trigger table as executable oracle",
+          "Every Jura tick is compared with the property's table (one-shot IOC with 10% slippage, resting GTC, four trigger directions, child order kind/fields/fresh id announced, child not eligible on the firing tick) over all eight constructors plus deserialised orders with is_market=false and trigger_px != limit_px; what the exchange did structurally (who left the book, who appeared) is observed from snapshots.",
+          A1, "5/E1/C18"),
   "C17": ("E1 exchange+server", "seeded simulation with adversarial batch layouts and sizes",
           "Batches of up to 300 (quick) / 5000 (thorough) orders in iid, alternating, block, one-odd, sorted and reversed layouts; the admitted list must be a sells-first permutation with strictly growing ids and fills must come in book order.",
           A1, "5/E1/C17"),
